@@ -2,7 +2,7 @@
    premise agree_b of C07_exact (project level lifting of Proofs/C07Agree.v). *)
 From Coq Require Import String Ascii.
 From Coq Require Import List Arith Lia Bool.
-Require Import TT.Model.Base TT.Model.Str TT.Proofs.StrFacts TT.Model.C07TypeParse TT.Proofs.C07TypeParseProofs TT.Model.Harvest TT.Proofs.HarvestProofs.
+Require Import TT.Model.Base TT.Model.Str TT.Proofs.StrFacts TT.Model.C07TypeParse TT.Proofs.C07TypeParseProofs TT.Model.C07Harvest TT.Proofs.C07HarvestProofs.
 Require Import TT.Model.C07Worklist TT.Model.C07Reach TT.Spec.C07Spec TT.Proofs.WorklistSpike TT.Proofs.C07Concrete TT.Proofs.C07Agree.
 Import ListNotations.
 Local Open Scope list_scope.
@@ -44,8 +44,7 @@ Proof.
   assert (Hok : ty_ok (bare n) = true). { unfold bare. cbn [ty_ok]. rewrite Hid. reflexivity. }
   assert (C1 : kf_result_ok_has_comma (rty_of (bare n)) = false). { simpl. rewrite andb_false_r. reflexivity. }
   assert (C2 : kf_tuple_elem_has_comma (rty_of (bare n)) = false) by reflexivity.
-  assert (C3 : kf_result_one_arg (rty_of (bare n)) = false). { simpl. rewrite andb_false_r. reflexivity. }
-  destruct (readers_agree (bare n) y Hok Hg C1 C2) as [A B]. specialize (A C3).
+  destruct (readers_agree (bare n) y Hok Hg C1 C2) as [A B].
   assert (Et : tstr (bare n) = n) by reflexivity. rewrite Et in A, B.
   destruct Hg as [Hc Hh]. assert (Hres : y <> L "Result"). { intros ->. vm_compute in Hh. discriminate. }
   split.
@@ -86,7 +85,6 @@ Variable p : project.
 Hypothesis Hdom : in_domain p = true.
 Hypothesis K1 : kf_c07_result_map p = false.
 Hypothesis K2 : kf_c07_tuple_generic p = false.
-Hypothesis K3 : kf_c07_result_alias p = false.
 Hypothesis K5 : kf_c07_field_result p = false.
 Hypothesis K6 : kf_c07_odd_name p = false.
 Hypothesis K7 : kf_c07_inline_mod p = false.
@@ -118,9 +116,9 @@ Proof.
 Qed.
 
 Lemma class_parts t : In t (all_types p) ->
-  kf_result_ok_has_comma (rty_of t) = false /\ kf_tuple_elem_has_comma (rty_of t) = false /\ kf_result_one_arg (rty_of t) = false.
-Proof. intros Ht. unfold kf_c07_result_map, kf_c07_tuple_generic, kf_c07_result_alias in *.
-  apply existsb_false_Forall in K1. apply existsb_false_Forall in K2. apply existsb_false_Forall in K3.
+  kf_result_ok_has_comma (rty_of t) = false /\ kf_tuple_elem_has_comma (rty_of t) = false.
+Proof. intros Ht. unfold kf_c07_result_map, kf_c07_tuple_generic in *.
+  apply existsb_false_Forall in K1. apply existsb_false_Forall in K2.
   rewrite Forall_forall in *. auto. Qed.
 
 Lemma lookup_same n : lookup p n = spec_lookup p n.
@@ -162,7 +160,7 @@ Proof. intros Hd Hs Hk Hf. unfold all_types. apply in_or_app. right. unfold fiel
 
 Lemma type_agree t y : In t (all_types p) -> good y ->
   (In y (extract_type_names (tstr t)) <-> In y (leaf_names t)) /\ (In y (ts_of (tstr t)) <-> In y (ok_names t)).
-Proof. intros Ht Hg. destruct dom_parts as (Hty & _). destruct (class_parts t Ht) as (C1 & C2 & C3).
+Proof. intros Ht Hg. destruct dom_parts as (Hty & _). destruct (class_parts t Ht) as (C1 & C2).
   destruct (readers_agree t y (Hty t Ht) Hg C1 C2) as [A B]. split; auto. Qed.
 
 Lemma fields_agree n y : resolvable p n = true -> good y ->
@@ -186,11 +184,11 @@ Proof.
     split; intros (f & Hf & Hy); exists f; split; auto; apply (type_agree (f_ty f) y (HF f Hf) Hg); auto.
   - rewrite (in_concat_map (fun s => ts_of s)). rewrite in_flat_map. split.
     + intros (s & Hsin & Hy). apply in_map_iff in Hsin as (f & <- & Hf). exists f. split; auto.
-      destruct (class_parts _ (HF f Hf)) as (_ & _ & C3). destruct dom_parts as (Hty & _).
-      apply (ok_leaf y Hg (f_ty f) (Hty _ (HF f Hf)) (Hr f Hf) C3). apply (type_agree (f_ty f) y (HF f Hf) Hg). auto.
+      destruct dom_parts as (Hty & _).
+      apply (ok_leaf y Hg (f_ty f) (Hty _ (HF f Hf)) (Hr f Hf)). apply (type_agree (f_ty f) y (HF f Hf) Hg). auto.
     + intros (f & Hf & Hy). exists (tstr (f_ty f)). split; [apply in_map_iff; exists f; split; auto|].
-      destruct (class_parts _ (HF f Hf)) as (_ & _ & C3). destruct dom_parts as (Hty & _).
-      apply (type_agree (f_ty f) y (HF f Hf) Hg). apply (ok_leaf y Hg (f_ty f) (Hty _ (HF f Hf)) (Hr f Hf) C3). auto.
+      destruct dom_parts as (Hty & _).
+      apply (type_agree (f_ty f) y (HF f Hf) Hg). apply (ok_leaf y Hg (f_ty f) (Hty _ (HF f Hf)) (Hr f Hf)). auto.
 Qed.
 
 (* ---------- roots ---------- *)
@@ -203,7 +201,7 @@ Lemma input_type_plain c t y : In c (commands p) -> In t (cmd_channels c) \/ In 
 Proof. intros Hc Ht Hg.
   assert (Hall : In t (all_types p)) by (apply (cmd_type_in c); auto; tauto).
   assert (Hin : In t (input_types p)). { unfold input_types. apply in_flat_map. exists c. split; auto. apply in_or_app. tauto. }
-  destruct dom_parts as (Hty & _ & Hres & _). destruct (class_parts _ Hall) as (_ & _ & C3).
+  destruct dom_parts as (Hty & _ & Hres & _).
   rewrite (proj2 (type_agree t y Hall Hg)). apply ok_leaf; auto. Qed.
 
 Lemma ts_unit : ts_of (L "()") = []. Proof. vm_compute. reflexivity. Qed.
@@ -295,14 +293,14 @@ End Lift.
 
 (* C09: outside the classes every schema reference to a defined type is a recorded dependency *)
 Theorem edges_recorded_from_classes p : in_domain p = true ->
-  kf_c07_result_map p = false -> kf_c07_tuple_generic p = false -> kf_c07_result_alias p = false ->
+  kf_c07_result_map p = false -> kf_c07_tuple_generic p = false ->
   kf_c07_field_result p = false -> kf_c07_odd_name p = false -> kf_c07_inline_mod p = false ->
   forallb (fun n => forallb (fun v => negb (resolvable p v) || smemb v (deps_of p n)) (concat (raw_fields_ts p n))) (dnames p) = true.
 Proof.
-  intros Hdom K1 K2 K3 K5 K6 K7. apply forallb_forall. intros n Hn. apply forallb_forall. intros v Hv.
+  intros Hdom K1 K2 K5 K6 K7. apply forallb_forall. intros n Hn. apply forallb_forall. intros v Hv.
   unfold dnames in Hn. apply filter_In in Hn as [_ Hn].
   destruct (resolvable p v) eqn:Ev; [|reflexivity]. simpl.
   destruct (defined_good p Hdom K6 K7 v Ev) as [Hg _].
-  destruct (fields_agree p Hdom K1 K2 K3 K5 K7 n v Hn Hg) as [A B].
+  destruct (fields_agree p Hdom K1 K2 K5 K7 n v Hn Hg) as [A B].
   apply smemb_true. apply A. apply B. exact Hv.
 Qed.
